@@ -30,12 +30,14 @@ def _bp_cases():
              ("sparse", "SQFS_BLK_IS_SPARSE", "(SQFS_BLK_IS_COMPRESSED|SQFS_BLK_FIRST_BLOCK)")]
     out = []
     for kn, f0, f1 in kinds:
-        for n, g in ((0, -1), (1, -1), (1, 0), (2, -1), (2, 0), (2, 1)):
+        for n, g in ((0, -1), (1, -1), (1, 0), (2, -1), (2, 0)):
             if kn == "sparse" and n == 0:
                 continue
             out.append(dict(id="%s_n%d_g%s" % (kn, n, "x" if g < 0 else g),
                             defines={"NB": 2, "NPOOL": n, "GIVEUP_AT": "(%d)" % g,
-                                     "FL0": f0, "FL1": f1}, tier="quick"))
+                                     "FL0": f0, "FL1": f1},
+                            # one slow case (87 s in the SAT solver) goes to the thorough tier
+                            tier="thorough" if (kn, n, g) == ("sparse", 2, -1) else "quick"))
     return out
 
 HARNESSES = [
@@ -67,9 +69,16 @@ HARNESSES = [
     dict(name="serial_dequeue", file="serial.c", label="bounded(list nodes <= 3)", timeout=600,
          fp={"fun": "stub_fun"}, defines={"OP_DEQUEUE": None},
          cases=[dict(id="k3", defines={"KQ": 3, "KR": 2}, unwind=7, tier="quick")]),
+    dict(name="frame_store", file="frame_worker.c", label=L2, timeout=600, mode="dfcc",
+         enforce="cs_store_completed", native=False,
+         cases=_k({"FRAME_STORE": None}, {"FRAME_STORE": None})),
+    dict(name="frame_next", file="frame_worker.c", label=L2, timeout=600, mode="dfcc",
+         enforce="cs_get_next_work_item", native=False,
+         cases=_k({"FRAME_NEXT": None}, {"FRAME_NEXT": None})),
     dict(name="worker_proc", file="worker_proc.c", label=L2, timeout=900,
          fp={"fun": "stub_fun"},
          cases=[dict(id="k2w0", defines=dict(K2, WIDX=0, MAXWAIT=0), unwind=8, label=L2, tier="quick"),
-                dict(id="k2w1", defines=dict(K2, WIDX=1), unwind=8, label=L2, tier="quick"),
+                dict(id="k2w1", defines=dict(K2, WIDX=1, MAXWAIT=0), unwind=8, label=L2, tier="quick"),
+                dict(id="k2w1_wake", defines=dict(K2, WIDX=1, MAXWAIT=1), unwind=8, label=L2, tier="thorough"),
                 dict(id="k3w2", defines=dict(K3, WIDX=2), unwind=10, label=L3, tier="thorough")]),
 ]
